@@ -128,4 +128,5 @@ func TestC20Wide(t *testing.T)    { pbt.Check(t, specWide) }
 func TestC20Util(t *testing.T)    { pbt.Check(t, specUtil) }
 func TestC20Special(t *testing.T) { pbt.Check(t, specSpecial) }
 func TestC20Long(t *testing.T)    { pbt.Check(t, specLong) }
+func TestC20Big(t *testing.T)     { pbt.Check(t, specBig) }
 func TestReplay(t *testing.T)     { pbt.Replay(t) }
